@@ -19,7 +19,9 @@ import (
 
 // C03 — the file server never touches anything outside the served directory.
 
-var c03Tokens = []string{"/", "..", ".", "a", "g", "sib", "served2", "canary-up", "%2e%2e", "%2f", "%2e", `\`, `..\`, "\x00", "//", ";", "?x", "#x"}
+var c03Tokens = []string{"/", "..", ".", "a", "g", "sib", "served2", "canary-up", "%2e%2e", "%2f", "%2e", `\`, `..\`, "\x00", "//", ";", "?x", "#x",
+	// segments that become dot-dot once ill-formed UTF-8 is dropped or replaced
+	"/.\xff./", "\xff..\xff/"}
 var c03Sub12 = []string{"/", "..", ".", "a", "served2", "canary-up", "%2e%2e", "%2f", `\`, "\x00", "//", "sib"}
 var c03Sub6 = []string{"/", "..", "a", "%2e%2e", `\`, "served2"}
 
@@ -449,7 +451,7 @@ func c03ExploreSpell(r *engine.Run, strs []string, spell int, visit func(v *fsVi
 func init() {
 	register("C03", func(r *engine.Run) {
 		quick := !thorough(r)
-		r.Rule = "every string of 1..L tokens over 18 traversal tokens (L=3 full + L=4 on 6 tokens quick; L=4 full + L=5 on 6 tokens thorough) used as URL.Path verbatim, as raw request-target (when net/http parses it), and as Destination header (bare, http://h-prefixed, //h-prefixed) x every method x 3 start trees (empty, tree with look-alike encoded names, tree produced by a real MKCOL/PUT/MOVE history); non-trivial = the string contains a traversal feature (dot-dot, percent-encoding, backslash, NUL, double slash, URL metacharacter, relative); distinct by (start tree, string, request form); plus, before anything else is served in the process, every ordered pair of a 20-request alphabet on two handlers over two different directories (first on A, then on B)"
+		r.Rule = "every string of 1..L tokens over 20 traversal tokens (incl. two that turn into dot-dot when ill-formed UTF-8 is dropped) (L=3 full + L=4 on 6 tokens quick; L=4 full + L=5 on 6 tokens thorough) used as URL.Path verbatim, as raw request-target (when net/http parses it), and as Destination header (bare, http://h-prefixed, //h-prefixed) x every method x 3 start trees (empty, tree with look-alike encoded names, tree produced by a real MKCOL/PUT/MOVE history); non-trivial = the string contains a traversal feature (dot-dot, percent-encoding, backslash, NUL, double slash, URL metacharacter, relative); distinct by (start tree, string, request form); plus, before anything else is served in the process, every ordered pair of a 20-request alphabet on two handlers over two different directories (first on A, then on B)"
 		r.Explanation = "explicit-state exploration over hostile paths with a model-free oracle: a byte-exact snapshot (content, entry list, modes, mtimes) of everything in the sandbox outside the served directory must be unchanged after every request, no canary token may appear in a response, every multistatus href must clean to a served resource of the same kind and be addressable again, and unmappable paths must be refused 4xx"
 		r.Assumptions = []string{"the mapping path -> file name is stateless, so three start trees suffice (stated assumption)", "symlinks placed inside the served directory are outside the statement"}
 		defer harness.Cleanup()
